@@ -163,6 +163,7 @@ for pname in PROGRAMS:
     HARNESSES.append(H('gen_' + pname, h_generate, dict(program=pname),
                        tiers=('quick', 'thorough') if pname in QUICK else ('thorough',),
                        finding='C03/parent-connected-twice' if pname.startswith('dup_parent') else None,
+                       finding_claims=('is_its_dataflow_meaning', 'gets_exactly_its_declared_keywords'), finding_errors=('TypeError',),
                        bounds='program %s: %s; every subset of requested outputs x every subset of supplied nodes x batch_size {1,3}'
                               % (pname, PROGRAMS[pname])))
 for pname in ('chain', 'two_summaries', 'operation_between', 'two_sims'):
